@@ -4153,6 +4153,47 @@ theorem bmp_of_kept (d d' : Node) (f t : Nat) (req : List Nat) (hb : bmpDoc d = 
 /-- the text of a slice is BMP -/
 def sliceBmp (sl : Slice) : Bool := (sliceToks' sl).all Tok.noHigh
 
+/-- **the new document of a fitted replace is BMP when the document and the requested slice are**: the tokens of the new
+    document are tokens of the old one and tokens of the emitted slice (`apply_replace_toks`,
+    `apply_replaceAround_toks`), and the text of the emitted slice is a subsequence of the requested text
+    (`C11.fit_text`) -/
+theorem fitted_bmp (S : Schema) (doc doc' : Node) (f t : Nat) (req : Slice) (hwf : req.wf = true) (s : Step)
+    (hr : replaceStep S doc f t req = .ok (some s))
+    (hsh : ∀ F T G1 G2 sl' ins b, s = .replaceAround F T G1 G2 sl' ins b → aroundShape F T G1 G2 sl' ins = true)
+    (ha : S.apply s doc = .ok doc') (hb : bmpDoc doc = true) (hsb : sliceBmp req = true) :
+    bmpDoc doc' = true := by
+  obtain ⟨sl', hs, hsub⟩ := PM.C11.fit_text S doc f t req s hwf hr
+  unfold sliceBmp at hsb
+  unfold bmpDoc at hb ⊢
+  rw [all_noHigh_iff] at hb hsb ⊢
+  have hsl : ∀ c ∈ textUnits sl'.toks, isHigh c = false := fun c hc => hsb c (hsub.subset hc)
+  rcases replaceStep_range S doc f t req s hr with ⟨T, sl2, rfl, _⟩ | ⟨T, G2, sl2, ins, rfl, _⟩
+  · simp only [Step.sliceOf, Option.some.injEq] at hs
+    subst hs
+    obtain ⟨e, _⟩ := apply_replace_toks S doc doc' f T sl2 false ha
+    intro c hc
+    rw [e] at hc
+    simp only [textUnits_append, List.mem_append] at hc
+    rcases hc with (hc | hc) | hc
+    · exact hb c ((textUnits_sublist (List.take_sublist _ _)).subset hc)
+    · exact hsl c hc
+    · exact hb c ((textUnits_sublist (List.drop_sublist _ _)).subset hc)
+  · simp only [Step.sliceOf, Option.some.injEq] at hs
+    subst hs
+    have hshape := hsh _ _ _ _ _ _ _ rfl
+    simp only [aroundShape, Bool.and_eq_true, decide_eq_true_eq] at hshape
+    obtain ⟨⟨⟨⟨hwf', hins⟩, g1⟩, g2⟩, g3⟩ := hshape
+    obtain ⟨e, _⟩ := apply_replaceAround_toks S doc doc' f T t G2 sl2 ins false hwf' hins ⟨g1, g2, g3⟩ ha
+    intro c hc
+    rw [e] at hc
+    simp only [textUnits_append, List.mem_append] at hc
+    rcases hc with (((hc | hc) | hc) | hc) | hc
+    · exact hb c ((textUnits_sublist (List.take_sublist _ _)).subset hc)
+    · exact hsl c ((textUnits_sublist (List.take_sublist _ _)).subset hc)
+    · exact hb c ((textUnits_sublist ((List.take_sublist _ _).trans (List.drop_sublist _ _))).subset hc)
+    · exact hsl c ((textUnits_sublist (List.drop_sublist _ _)).subset hc)
+    · exact hb c ((textUnits_sublist (List.drop_sublist _ _)).subset hc)
+
 /-- what is asked of the replace-around answer to a deletion: the fit guard of its inverse -/
 def AroundFitsBack (S : Schema) (s : Step) (d : Node) : Prop :=
   match s with
@@ -4166,7 +4207,8 @@ def AroundFitsBack (S : Schema) (s : Step) (d : Node) : Prop :=
       outside the range);
     * **typing / inline leaves** with BMP text (`sliceBmp`): `RecordedReplaceOk` — the new document is BMP
       (`C11.insertInline_valid_of_norm`: its text is the old text around the range and text of the slice);
-    * **loosely valid / cut from a valid document**: `unplacedWfRun`, the new document BMP, `RecordedReplaceOk`.
+    * **loosely valid / cut from a valid document**: `unplacedWfRun`, BMP text in the slice (`fitted_bmp`; or the new
+      document BMP), `RecordedReplaceOk`.
     Every other operation: `MixedResidual`. -/
 def EditResidual' (S : Schema) (op : Op) (tr tr1 : Tr) : Prop :=
   match op with
@@ -4175,7 +4217,7 @@ def EditResidual' (S : Schema) (op : Op) (tr tr1 : Tr) : Prop :=
        (sl.inlineLeaves S = true ∧ sl.closedValid S = true ∧ sliceBmp sl = true ∧
           HistAll (fun s d _ => RecordedReplaceOk S s d) (appended tr tr1) tr1.doc) ∨
        (((sl.looseValid S = true ∧ sl.wf = true) ∨ ∃ src a b, C01.Valid S src ∧ src.slice a b = .ok sl) ∧
-          unplacedWfRun S tr.doc f t sl = true ∧ bmpDoc tr1.doc = true ∧
+          unplacedWfRun S tr.doc f t sl = true ∧ (sliceBmp sl = true ∨ bmpDoc tr1.doc = true) ∧
           HistAll (fun s d _ => RecordedReplaceOk S s d) (appended tr tr1) tr1.doc))
   | op => MixedResidual S op tr tr1
 
@@ -4217,7 +4259,18 @@ theorem editResidual_of' (S : Schema) (hdet : PM.C11.detB S = true) (hfill : S.f
         refine bmp_of_kept tr.doc tr1.doc f t _ hb ?_ hkept
         unfold sliceBmp at hsb
         exact (all_noHigh_iff _).mp hsb
-    · refine ⟨hft, hattrs, ?_, hb1, hrec⟩
+    · have hwf : sl.wf = true := by
+        rcases hk with ⟨_, h2⟩ | ⟨src, a, b, _, hcut⟩
+        · exact h2
+        · exact sliceKids_wf _ _ _ _ hcut
+      have hb1' : bmpDoc tr1.doc = true := by
+        rcases hb1 with hsb | hb1
+        · rcases replaceOp_recorded S tr tr1 hlen f t _ h with ⟨_, ed⟩ | ⟨s, hr, _, ha⟩
+          · rw [ed]; exact hb
+          · exact fitted_bmp S tr.doc tr1.doc f t sl hwf s hr
+              (PM.C11.fit_emits_wf S hdet hfill hwrap hlab tr.doc f t sl hv hattrs hwf hft hrun s hr).2 ha hb hsb
+        · exact hb1
+      refine ⟨hft, hattrs, ?_, hb1', hrec⟩
       rcases hk with ⟨h1, h2⟩ | hcut
       · exact Or.inr (Or.inr (Or.inl ⟨h1, h2, hrun⟩))
       · exact Or.inr (Or.inr (Or.inr ⟨hcut, hrun⟩))
